@@ -14,7 +14,7 @@ for d in $SRC/C??; do
   P=$(basename $d)
   [ -d $d ] || continue
   if [ -n "$ONLY" ] && ! echo " $ONLY " | grep -q " $P "; then continue; fi
-  for k in 1 2; do
+  for k in 1 2 3; do
     [ -f $d/patch$k.diff ] || continue
     ID=$P-m$((k+${KOFF:-0}))
     mkdir -p $OUT/$ID
